@@ -418,6 +418,11 @@ def _used_names_in_file(filename: Path) -> Collection[str]:
             if isinstance(node.value, ast.Name) and node.value.id in imported_names:
                 names.append(node.value.id)
 
+    for node in core.walk(ast_root, ast.ImportFrom):
+        # What is imported from another file must keep its name over there,
+        # whatever it is called here and whether or not it is used here.
+        names.extend(alias.name for alias in node.names)
+
     return frozenset(names)
 
 
